@@ -535,7 +535,11 @@ func clientListC17(w *mon.W, fs *listFS, c *c17case, desc string) {
 		ctx, cancel := context.WithCancel(context.Background())
 		cend, send := wire.BPipe(1 << 16)
 		srvDone := make(chan error, 1)
-		go func() { srvDone <- p9p.ServeConn(ctx, send, p9p.SSession(p9p.SFileSys(fs))) }()
+		go func() {
+			err := p9p.ServeConn(ctx, send, p9p.SSession(p9p.SFileSys(fs)))
+			send.Close() // a handshake that missed ServeConn's real 1 s timeout must not leave the client waiting
+			srvDone <- err
+		}()
 		tap := wire.NewTap(cend)
 		tap.RewriteMsize = uint32(M)
 		tap.Keep = false
